@@ -13,7 +13,7 @@ from hgsim.util import canon, digest, mix
 
 ID = "C15"
 LEVEL = "exploration"
-BUDGET = {"quick": (8, 220, 45), "thorough": (16, 14000, 600)}
+BUDGET = {"quick": (8, 450, 90), "thorough": (16, 14000, 600)}
 RULE = (
     "seeded wide programs (layers of 2-4 parallel nodes, nested graphs to depth 3 whose inner layers are wide, map_over nodes and runner.map "
     "with fan-out <=6, maps inside nested graphs inside maps) run on AsyncRunner with max_concurrency k in 1..4 under an ADVERSARIAL scheduler: "
